@@ -33,6 +33,9 @@ structure Variant where
   exactHit : Bool
   /-- `ZeroSigH0SingleDatasetTCLLHRatio.initialize_for_new_trial` clears `_cache_nsgrad_i` -/
   resetNsgrad : Bool
+  /-- `ZeroSigH0SingleDatasetTCLLHRatio.evaluate` clears `_cache_nsgrad_i` before it does anything that
+      can raise (review round: without it a failing evaluate leaves the previous point's gradients) -/
+  clearNsgOnEval : Bool
 deriving Repr, DecidableEq
 
 /-- configuration of the object graph (the classes named in the property's quantifier) -/
@@ -64,10 +67,14 @@ structure World (D S F : Type) where
   up : F → F
   lo : F → F
   dx : F
+  /-- the PDF set has a PDF for this grid point (`PDFSet.get_pdf` raises `KeyError` otherwise) -/
+  inGrid : F → Bool
 
 /-- a parameter point: value per source and its grid key per source
     (Linear: `round_to_lower_grid_point x`, Parabola: `round_to_nearest_grid_point x`) -/
 structure Query (F : Type) where
+  /-- value of the global fit parameter ns (not used by the PDF ratio; `nsgrad_i` depends on it) -/
+  ns : F
   x : List F
   key : List F
 
@@ -270,6 +277,31 @@ def evalC (W : World D S F) (hit : F → F → Bool) (cfg : Cfg) (st : St D S F)
   ({ st with interp := r.2.1, pdc := r.2.2.1, bkgc := b.2.1, nsg := some (st.data, st.src, q) },
    ⟨o.1, o.2, r.2.2.2.1, r.2.2.2.2, b.2.2⟩)
 
+/-- grid points whose PDFs an evaluation looks up when the interpolation cache misses -/
+def needed (W : World D S F) (parabola : Bool) (key : List F) : List F :=
+  if parabola then key.map W.lo ++ key ++ key.map W.up else key ++ key.map W.up
+
+/-- all of them exist (otherwise `KeyError` in `_get_pdf_for_interpol_param_values`) -/
+def queryOk (W : World D S F) (parabola : Bool) (q : Query F) : Bool :=
+  (needed W parabola q.key).all W.inGrid
+
+/-- `evaluate` with its error path.  A point outside the grid raises before any value is returned;
+what the Python objects keep of the failed call: the per-event ns-gradients of the *previous*
+evaluation, unless `evaluate` clears them first (`clearNsgOnEval`).  (The PDFs of the in-grid
+neighbours that were evaluated before the `KeyError` may already sit in their pd caches; they are
+valid entries and only change later hit/miss counts, which is not modelled.) -/
+def evalE (W : World D S F) (v : Variant) (hit : F → F → Bool) (cfg : Cfg) (st : St D S F)
+    (q : Query F) : St D S F × Option (Out F) :=
+  if queryOk W cfg.parabola q then
+    let r := evalC W hit cfg st q
+    (r.1, some r.2)
+  else ({ st with nsg := if v.clearNsgOnEval then none else st.nsg }, none)
+
+/-- specification of `evaluate` including the error: `none` = the evaluation raises -/
+def evalPureE (W : World D S F) (parabola : Bool) (d : D) (s : S) (q : Query F) :
+    Option (List (List F) × List (List F)) :=
+  if queryOk W parabola q then some (evalPure W parabola d s q) else none
+
 /-! ### histories -/
 
 inductive Op (D S F : Type) where
@@ -281,7 +313,8 @@ inductive Op (D S F : Type) where
 inductive Res (D S F : Type) where
   | unit
   | out (o : Out F)
-  | grad2Of (d : D) (s : S) (q : Query F)   -- "second derivative of the evaluation (d, s, q)"
+  | evalError                               -- the evaluation raised (point outside the grid)
+  | grad2Of (d : D) (s : S) (q : Query F)   -- "second derivative of the evaluation (d, s, q)", q carries ns
   | error                                   -- RuntimeError: evaluate has to be called first
 
 def initTrial (v : Variant) (cfg : Cfg) (st : St D S F) (d : D) : St D S F :=
@@ -295,7 +328,8 @@ def step (W : World D S F) (v : Variant) (hit : F → F → Bool) (cfg : Cfg) (s
     Op D S F → St D S F × Res D S F
   | .initTrial d => (initTrial v cfg st d, .unit)
   | .changeSource s => (changeSource v cfg st s, .unit)
-  | .evaluate q => let r := evalC W hit cfg st q; (r.1, .out r.2)
+  | .evaluate q => let r := evalE W v hit cfg st q
+                   (r.1, match r.2 with | some o => .out o | none => .evalError)
   | .grad2 => (st, match st.nsg with | some (d, s, q) => .grad2Of d s q | none => .error)
 
 def run (W : World D S F) (v : Variant) (hit : F → F → Bool) (cfg : Cfg) :
@@ -320,6 +354,33 @@ def lastSrc (s0 : S) : List (Op D S F) → S
   | [] => s0
   | .changeSource s :: ops => lastSrc s ops
   | _ :: ops => lastSrc s0 ops
+
+/-- what an operation shows of the PDF-ratio values: `some none` = the evaluation raised -/
+def Res.vals : Res D S F → Option (Option (List (List F) × List (List F)))
+  | .out o => some (some (o.ratio, o.grad))
+  | .evalError => some none
+  | _ => none
+
+/-- **specification of a whole history**: every evaluate answers with the stateless evaluator on the
+data / source set by the last initTrial / changeSource before it -/
+def pureTrace (W : World D S F) (parabola : Bool) :
+    D → S → List (Op D S F) → List (Option (Option (List (List F) × List (List F))))
+  | _, _, [] => []
+  | _, s, .initTrial d :: ops => none :: pureTrace W parabola d s ops
+  | d, _, .changeSource s :: ops => none :: pureTrace W parabola d s ops
+  | d, s, .evaluate q :: ops => some (evalPureE W parabola d s q) :: pureTrace W parabola d s ops
+  | d, s, .grad2 :: ops => none :: pureTrace W parabola d s ops
+
+/-- specification of `_cache_nsgrad_i`: the last evaluation of the current trial (`clear`: a failed
+evaluation forgets, else it leaves the previous one) -/
+def lastEval (W : World D S F) (parabola clear : Bool) :
+    Option (Query F) → List (Op D S F) → Option (Query F)
+  | r, [] => r
+  | _, .initTrial _ :: t => lastEval W parabola clear none t
+  | _, .changeSource _ :: t => lastEval W parabola clear none t
+  | r, .evaluate q :: t =>
+    lastEval W parabola clear (if queryOk W parabola q then some q else if clear then none else r) t
+  | r, .grad2 :: t => lastEval W parabola clear r t
 
 end cached
 
